@@ -190,8 +190,9 @@ def run(ctx):
     gen("binary", 1, 1, "all binary forms x atoms x atoms")
     gen("ternary", 1, 1, "ternary forms x restricted first argument x atoms x atoms")
     n1 = len(terms)
-    for r in range(6 if ctx.thorough else 1):
-        gen("deep", 16 if ctx.thorough else 10, ctx.seed * 10 + r + 1, "depth-2 compositions drawn by TLC (RandomSubset)")
+    # six fixed draws; thorough takes all of them, quick the one selected by the seed (so quick explores a subset of thorough)
+    for r in (range(6) if ctx.thorough else [ctx.seed % 6]):
+        gen(f"deep", 14, 101 + r, f"depth-2 compositions drawn by TLC (RandomSubset, draw {r})")
     # a bare NULL literal has none of the column types the property quantifies over; it is kept where it is idiomatic (CASE / COALESCE / NULLIF families)
     def null_operand(t):
         return t["f"] not in MERGE and t["f"] != "nullif" and any(a.get("k") == "lit" and a.get("v") == "null" for a in t["args"])
